@@ -418,3 +418,51 @@ Proof.
   destruct (frun_sched 0 schedS (DataFlags.finit (chain_of seqgen_head) four)) as [s|] eqn:E; [|vm_compute in E; discriminate].
   exists s. split; [reflexivity|]. vm_compute in E. inversion E; subst s. vm_compute. split; reflexivity.
 Qed.
+
+(* ======================= record context: NR in end blocks (coq/C04/CtxModel.v) ======================= *)
+From Miller Require Import C04.CtxModel.
+
+(* The data model with done flags PLUS the context of the end-of-stream marker (the producer's record count when it
+   sends the marker; every verb forwards the same marker, end blocks run with its context).  For chains WITHOUT
+   early-exit verbs (no verb ever raises the done flag; printing allowed anywhere), every producer shape, every
+   batching and interleaving: an exited run has handed over EVERY record (so NR in every end block is the total record
+   count) and wrote the sequential result. *)
+Theorem C04_context_determinism_without_early_exit :
+  forall (rec str st : Type) (keep : nat) (vs : list (@verb rec str st * st)) (bs : list (list (@item rec str))) (c : cstate),
+    chain_ok 0 vs -> forallb recs_only bs = true -> creach keep (CtxModel.cinit vs bs) c -> ffinal (fst c) = true ->
+    snd c = total_recs bs /\ flat (fout (fst c)) = flat (DataFlags.seq_chain vs (whole bs)).
+Proof. exact (@ctx_determinism_no_early_exit). Qed.
+Print Assumptions C04_context_determinism_without_early_exit.
+
+(* ... for chains of cat / tac / put 'print NR' / put -q 'end{print NR}': any two exited runs render the same stdout *)
+Theorem C04_context_two_runs_agree_without_head :
+  forall (keep : nat) (ds : list cdesc) (bs : list (list nat)) (c1 c2 : cstate),
+    forallb no_head ds = true ->
+    creach keep (CtxModel.cinit (cchain ds) (cbatches bs)) c1 -> ffinal (fst c1) = true ->
+    creach keep (CtxModel.cinit (cchain ds) (cbatches bs)) c2 -> ffinal (fst c2) = true ->
+    render (snd c1) (flat (fout (fst c1))) = render (snd c2) (flat (fout (fst c2))).
+Proof. exact ctx_determinism_inst. Qed.
+Print Assumptions C04_context_two_runs_agree_without_head.
+
+(* the counter is a ghost: every run of the context model is a run of the data model with done flags *)
+Theorem C04_context_model_projects :
+  forall (rec str st : Type) (keep : nat) (vs : list (@verb rec str st * st)) (bs : list (list (@item rec str))) (c : cstate),
+    creach keep (CtxModel.cinit vs bs) c -> DataFlags.freach keep (DataFlags.finit vs bs) (fst c).
+Proof. exact (@creach_freach). Qed.
+Print Assumptions C04_context_model_projects.
+
+(* The known-finding class "end-block context downstream of an early-exit verb" on the faithful model:
+   head -n 1 then put -q 'end{print NR}' on six one-record batches has two exited runs printing different NR. *)
+Theorem C04_end_NR_downstream_of_head_refuted :
+  exists c1 c2, creach 1 (CtxModel.cinit head_endnr six) c1 /\ creach 1 (CtxModel.cinit head_endnr six) c2
+                /\ ffinal (fst c1) = true /\ ffinal (fst c2) = true
+                /\ render (snd c1) (flat (fout (fst c1))) <> render (snd c2) (flat (fout (fst c2))).
+Proof. exact end_NR_downstream_of_head_refuted. Qed.
+Print Assumptions C04_end_NR_downstream_of_head_refuted.
+
+(* non-vacuity: put 'print NR' then tac then put -q 'end{print NR}': an exited run, NR in the end block is 6 *)
+Example C04_context_nonvacuous :
+  forallb no_head ctx_chain = true /\
+  exists c, crun_sched 1 cschedC (CtxModel.cinit (cchain ctx_chain) six) = Some c /\ ffinal (fst c) = true /\ snd c = 6
+            /\ render (snd c) (flat (fout (fst c))) = [(1,1);(1,2);(1,3);(1,4);(1,5);(1,6);(2,6)].
+Proof. exact ctx_nonvacuous. Qed.
